@@ -21,7 +21,7 @@ def models(tier, seed):
 
 
 def required_tags(tier):
-    return ['parallel', 'ref_only_vsrc', 'linear_src', 'reversed', 'complex', 'k:load_v', 'k:voltage_source', 'k:current_source', 'k:short_circuit', 'k:open_circuit']
+    return ['planted', 'branches>=10', 'parallel', 'ref_only_vsrc', 'linear_src', 'reversed', 'complex', 'k:load_v', 'k:voltage_source', 'k:current_source', 'k:short_circuit', 'k:open_circuit']
 
 
 def tags_of(case):
@@ -105,3 +105,160 @@ def replay(case, ctx):
     for scheme, mode, units in variants:
         r.observations += compare_solution(case, scheme, mode, tuple(units), r.mismatches)
     return r
+
+
+# ------------------------------------------------------------------------------------------------------------------
+# direction (B): planted solutions on larger networks (<= 8 nodes / 14 branches), judged by TLC (spec/trace/Trace_C01.tla)
+def _g(z):
+    from fractions import Fraction
+    re, im = (z.real, z.imag) if isinstance(z, complex) else (z, 0)
+    re, im = Fraction(re), Fraction(im)
+    return [[re.numerator, re.denominator], [im.numerator, im.denominator]]
+
+
+class FC:
+    """exact complex number over Fractions"""
+    def __init__(self, re=0, im=0):
+        from fractions import Fraction
+        self.re, self.im = Fraction(re), Fraction(im)
+
+    def __add__(self, o): return FC(self.re + o.re, self.im + o.im)
+    def __sub__(self, o): return FC(self.re - o.re, self.im - o.im)
+    def __neg__(self): return FC(-self.re, -self.im)
+    def __mul__(self, o): return FC(self.re * o.re - self.im * o.im, self.re * o.im + self.im * o.re)
+    def inv(self):
+        m = self.re * self.re + self.im * self.im
+        return FC(self.re / m, -self.im / m)
+    def __truediv__(self, o): return self * o.inv()
+    def zero(self): return self.re == 0 and self.im == 0
+    def j(self): return [[self.re.numerator, self.re.denominator], [self.im.numerator, self.im.denominator]]
+    def c(self): return complex(float(self.re), float(self.im))
+
+
+def plant(rng):
+    """a random network with a known exact solution"""
+    from fractions import Fraction as F
+    n = rng.randint(4, 8)
+    ref = rng.randrange(n)
+    phi = [FC(rng.randint(-4, 4), rng.choice([0, 0, 1, -2])) for _ in range(n)]
+    phi[ref] = FC(0)
+    nodes = list(range(n))
+    rng.shuffle(nodes)
+    pairs = [(nodes[i], rng.choice(nodes[:i])) for i in range(1, n)]
+    extra = rng.randint(0, 14 - (n - 1) - (n - 1))
+    for _ in range(max(extra, 0)):
+        pairs.append(tuple(rng.sample(range(n), 2)))
+    br, flow = [], []
+    z0 = [[0, 1], [0, 1]]
+    # union-find over ideal-voltage branches to keep them a forest
+    parent = list(range(n))
+
+    def find(x):
+        while parent[x] != x:
+            parent[x] = parent[parent[x]]
+            x = parent[x]
+        return x
+    for k, (a, b) in enumerate(pairs):
+        if rng.random() < 0.5:
+            a, b = b, a
+        u = phi[a] - phi[b]
+        kind = rng.choices(['R', 'Z', 'Y', 'VL', 'IL', 'V', 'S', 'O'], weights=[5, 2, 2, 2, 2, 3, 1, 1])[0]
+        if kind in ('V', 'S'):
+            if find(a) == find(b) or (kind == 'S' and not u.zero()):
+                kind = 'R'
+            else:
+                parent[find(a)] = find(b)
+        if kind == 'R':
+            zz = FC(rng.choice([1, 2, 3, 4, 5, 6]))
+            e = {'f': 'N', 'imm': zz.j(), 'src': z0, 'k': 'resistor', 'a': [zz.j()]}
+            fl = u / zz
+        elif kind == 'Z':
+            zz = FC(rng.choice([1, 2, 3]), rng.choice([-2, -1, 1, 2]))
+            e = {'f': 'N', 'imm': zz.j(), 'src': z0, 'k': 'impedance', 'a': [zz.j()]}
+            fl = u / zz
+        elif kind == 'Y':
+            yy = FC(F(1, rng.choice([1, 2, 4])), F(rng.choice([-1, 1]), rng.choice([2, 4])))
+            e = {'f': 'T', 'imm': yy.j(), 'src': z0, 'k': 'admittance', 'a': [yy.j()]}
+            fl = yy * u
+        elif kind == 'VL':
+            zz, vv = FC(rng.choice([1, 2, 4])), FC(rng.randint(1, 4), rng.choice([0, 1]))
+            e = {'f': 'N', 'imm': zz.j(), 'src': vv.j(), 'k': 'voltage_source', 'a': [vv.j(), zz.j()]}
+            fl = (u + vv) / zz
+        elif kind == 'IL':
+            yy, ii = FC(F(1, rng.choice([1, 2, 4]))), FC(rng.randint(1, 3), rng.choice([0, -1]))
+            e = {'f': 'T', 'imm': yy.j(), 'src': ii.j(), 'k': 'current_source', 'a': [ii.j(), yy.j()]}
+            fl = ii + yy * u
+        elif kind == 'V':
+            if u.zero():
+                e = {'f': 'N', 'imm': z0, 'src': z0, 'k': 'short_circuit', 'a': []}
+            else:
+                e = {'f': 'N', 'imm': z0, 'src': u.j(), 'k': 'voltage_source', 'a': [u.j(), z0]}
+            fl = FC(rng.randint(-3, 3), rng.choice([0, 0, 1]))          # its current is free: chosen, balanced below
+        elif kind == 'S':
+            e = {'f': 'N', 'imm': z0, 'src': z0, 'k': 'short_circuit', 'a': []}
+            fl = FC(rng.randint(-2, 2))
+        else:
+            e = {'f': 'T', 'imm': z0, 'src': z0, 'k': 'open_circuit', 'a': []}
+            fl = FC(0)
+        br.append({'id': k + 1, 'n1': a, 'n2': b, 'e': e})
+        flow.append(fl)
+    # balance every node with an ideal current source from the reference
+    for nn in range(n):
+        if nn == ref:
+            continue
+        d = FC(0)
+        for b, fl in zip(br, flow):
+            if b['n1'] == nn:
+                d = d + fl
+            if b['n2'] == nn:
+                d = d - fl
+        if not d.zero():
+            # current d must be brought INTO nn: source from ref to nn carrying d
+            br.append({'id': len(br) + 1, 'n1': ref, 'n2': nn, 'e': {'f': 'T', 'imm': z0, 'src': d.j(), 'k': 'current_source', 'a': [d.j(), z0]}})
+            flow.append(d)
+    return br, ref, phi, flow
+
+
+def extra(tier, seed, ctx, pool):
+    import random, json
+    from ..trace import judge
+    rng = random.Random(seed * 101 + 1)
+    n_nets = 160 if tier == 'quick' else 4000
+    plants, events = [], []
+    for t in range(n_nets):
+        br, ref, phi, flow = plant(rng)
+        if len(br) > 16:
+            continue
+        plants.append((br, ref, phi, flow))
+        events.append({'tid': len(plants), 'br': [{'id': b['id'], 'n1': b['n1'], 'n2': b['n2'], 'e': {'f': b['e']['f'], 'imm': b['e']['imm'], 'src': b['e']['src']}} for b in br],
+                       'ref': ref, 'phi': [p.j() for p in phi], 'flow': [f.j() for f in flow]})
+    verdicts, info = judge('Trace_C01.tla', events, shards=16, implicit_ok=True)
+    counts = {}
+    for k, (br, ref, phi, flow) in enumerate(plants):
+        v = verdicts[k + 1]['v']
+        counts[v] = counts.get(v, 0) + 1
+        r = CaseResult(case_id=f'plant{k}')
+        r.tags = ['planted', f'nodes:{len(phi)}', 'branches>=10' if len(br) >= 10 else 'branches<10']
+        if v == 'plant_not_well_posed':
+            r.skipped = v           # e.g. the balancing made a node hang on current sources only: not in the domain
+            yield (json.dumps({'plant': k}), r)
+            continue
+        if v != 'ok':
+            from ..common import MachineryError
+            raise MachineryError(f'the planted oracle is wrong ({v}) for {json.dumps(events[k])[:500]}')
+        # expected observation in the format of the exhaustive scenarios
+        u = [phi[b['n1']] - phi[b['n2']] for b in br]
+        irep = [(-f if (b['e']['src'] != [[0, 1], [0, 1]] and b['e']['imm'] != [[0, 1], [0, 1]]) else f) for b, f in zip(br, flow)]
+        case = {'br': br, 'ref': ref, 'expect': {'phi': {str(n): phi[n].j() for n in range(len(phi)) if any(n in (b['n1'], b['n2']) for b in br)},
+                                                 'u': [x.j() for x in u], 'i': [x.j() for x in irep],
+                                                 'p': [_g(a.c() * b.c().conjugate()) if False else FCmulconj(a, b).j() for a, b in zip(u, irep)]}}
+        scheme = rng.randrange(N_SCHEMES)
+        r.observations += compare_solution(case, scheme, rng.randrange(3), UNITS[rng.randrange(len(UNITS))], r.mismatches)
+        for m in r.mismatches:
+            m['signature'] = 'planted:' + m['signature']
+        yield (json.dumps(case), r)
+    yield {'trace_validation': dict(info, verdicts=counts, module='Trace_C01.tla')}
+
+
+def FCmulconj(a, b):
+    return a * FC(b.re, -b.im)
